@@ -1267,6 +1267,12 @@ done:
      */
     *bin     = (unsigned char *)ares_buf_finish_str(binbuf, &mylen);
     *bin_len = mylen;
+    if (*bin == NULL) {
+      /* An empty string still needs an allocation for its terminator;
+       * ares_buf_finish_str() keeps the buffer when that fails */
+      ares_buf_destroy(binbuf);
+      status = ARES_ENOMEM;
+    }
   }
 
   return status;
